@@ -16,7 +16,9 @@ SORTING = ('greedy', 'roundrobin', 'multifit', 'kk', 'ffd', 'bfd', 'cdec', 'c23'
 
 
 class Multi:
-    def __init__(self, what, alg, n, size=None, obj=None, order='any', iterations=None, cg_mask=None, pres='nv', other=None, lo=None):
+    def __init__(self, what, alg, n, size=None, obj=None, order='any', iterations=None, cg_mask=None, pres='nv', other=None, lo=None, m=0, groups=None):
+        self.groups = groups
+        self.m = m            # C15: a second, independent request of m items to the same algorithm with the same size
         self.what = what; self.alg = alg; self.n = n; self.size = size; self.obj = obj; self.order = order
         self.family = 'part' if alg in PART else ('pack' if alg in PACKERS else 'cover')
         self.kw = alg_kwargs(alg, obj, cg_mask, iterations) if self.family == 'part' else {}
@@ -26,7 +28,7 @@ class Multi:
 
     # ------------------------------------------------------------------ plumbing
     def setup(self, c):
-        idx = item_vars(c, self.n, self.lo, self.order)
+        idx = item_vars(c, self.n, self.lo, self.order, groups=self.groups)
         xs = [c.zvars[i] for i in idx]
         bi = c.newvar('B')
         if self.family != 'part':
@@ -35,6 +37,10 @@ class Multi:
             if self.family == 'pack':
                 for x in xs: c.assume(x <= c.zvars[bi])
         c.ns['x'] = xs; c.ns['B'] = c.zvars[bi]
+        if self.m:
+            self.yidx = item_vars(c, self.m, self.lo, self.order, prefix='y')
+            if self.family == 'pack':
+                for j in self.yidx: c.assume(c.zvars[j] <= c.zvars[bi])
         return (idx, bi)
 
     def sz(self, c, bi, scale=1):
@@ -185,8 +191,11 @@ class Multi:
             restore_state()
 
     def variant(self, c, bi, items, which):
-        """the same algorithm on a related request: another bin size / bin count, or the items in another order with one more item"""
+        """the same algorithm on a related request: another bin size / bin count, or the items in another order with one more item;
+        which == 2: an independent request (other symbolic items) with the same size"""
         try:
+            if which == 2:
+                return self.call(c, bi, numbers(c, self.yidx))
             if self.family == 'part':
                 if which == 0:
                     if self.alg == 'cbldm':
@@ -214,7 +223,7 @@ class Multi:
         # ---- histories of the SAME algorithm on related requests, each result compared with the same call in a fresh state
         items0 = list(vals)
         fresh_main = self.call(c, bi, list(items0))
-        for which in (0, 1):
+        for which in ((2,) if self.m else (0, 1)):
             restore_state()
             fresh_var = self.variant(c, bi, list(items0), which)
             restore_state()
